@@ -90,6 +90,44 @@ STRUCTURED = [
 	return
 }""",
     """func s%d_0(c func() bool) {
+	for c() {
+		tick()
+		defer noop(reg(%d, 0))
+		noise()
+		defer noop(reg(%d, 1))
+	}
+	ex(%d, 0)
+	return
+}""",
+    """func s%d_0(c func() bool) {
+	for c() {
+		tick()
+		if c() {
+			defer noop(reg(%d, 0))
+		} else {
+			defer noop(reg(%d, 1))
+		}
+	}
+	defer noop(reg(%d, 2))
+	ex(%d, 0)
+	return
+}""",
+    """func s%d_0(c func() bool) {
+L:
+	tick()
+	defer noop(reg(%d, 0))
+	if c() {
+		defer noop(reg(%d, 1))
+		goto L
+	}
+	if c() {
+		defer noop(reg(%d, 2))
+		goto L
+	}
+	ex(%d, 0)
+	return
+}""",
+    """func s%d_0(c func() bool) {
 	switch {
 	case c():
 		defer noop(reg(%d, 0))
@@ -372,7 +410,20 @@ def run(chk):
     def handle(dirs, tag, native):
         nonlocal found_concrete
         dump = os.path.join(work, tag + ".dump")
-        rc, out = vlib.sh([os.path.join(vlib.BIN, "c16dump"), "-pos", "-o", dump] + dirs, timeout=1200)
+        rc, out = vlib.sh([os.path.join(vlib.BIN, "c16dump"), "-pos", "-o", dump] + dirs, timeout=1800)
+        m = re.search(r"NONTERMINATION (\S+) (\S+)", out)
+        if rc == 3 and m:
+            # the real AnalyzeFunction did not return within the limit on this function: termination half of the property
+            found_concrete = True
+            d = chk.replay_dir("nonterm:" + m.group(2))
+            if os.path.exists(os.path.join(m.group(1), "main.go")) and m.group(1).startswith(vlib.BUILD):
+                shutil.copy(os.path.join(m.group(1), "main.go"), d)
+            with open(os.path.join(d, "replay.txt"), "w") as f:
+                f.write("defers.AnalyzeFunction does not terminate (60 s limit) on function %s of program %s\n"
+                        "re-run: build/bin/c16dump -only-defer %s\n(theorem defers_terminates holds of Model/Defers.v: the implementation left the model)\n"
+                        % (m.group(2), m.group(1), m.group(1)))
+            chk.violation("nontermination:" + m.group(2), "defer analysis does not terminate on %s" % m.group(2), d)
+            return
         if rc != 0:
             raise vlib.BuildError("c16dump failed on %s" % tag, out)
         rc, mout, merr = vlib.sh2([model], inp=open(dump).read(), timeout=1200)
